@@ -184,4 +184,22 @@ theorem C03_subcat_links (db : Db) (entry : Nat) (lexids : List Nat) (s : Sense)
     refine ⟨e, he, ?_⟩
     simp [hi, hne']
 
+/-- known finding F2-residual, stated on the model: when the frames linked to a sense carry no id
+(entry-level frames of a 1.0 document), the ≥ 1.1 export has an empty `subcat` although the store
+holds the links -/
+theorem C03_frames_without_id_lose_links (db : Db) (entry : Nat) (lexids : List Nat) (s : Sense)
+    (h : s ∈ exportSenses db entry lexids true) (hnoid : ∀ e ∈ sbMap db lexids s.id, e.1 = none) : s.subcat = [] := by
+  simp only [exportSenses, List.mem_map] at h
+  obtain ⟨sd, _, rfl⟩ := h
+  simp only at hnoid ⊢
+  split
+  · apply List.eq_nil_iff_forall_not_mem.mpr
+    intro fid hfid
+    rw [mem_sortedSet] at hfid
+    simp only [List.mem_filterMap] at hfid
+    obtain ⟨e, he, hx⟩ := hfid
+    rw [hnoid e he] at hx
+    simp at hx
+  · rfl
+
 end WnVerif.Props.C03
